@@ -218,12 +218,12 @@ fn typed<T: Pixel>(toks: &[&str], segs: &[&str]) -> Option<String> {
     Some(match toks[0] {
         // optional suffix `L<mode> <index>`: the sample sits at <index> of a multi-row frame (oracle::yuv444_rows; mode 1 = a
         // different padding per plane, mode 2 = one shared padded layout), every other sample being mid-grey
-        "dec" | "rt" if toks.len() == 11 && (toks[9] == "L1" || toks[9] == "L2") => {
+        "dec" | "rt" if toks.len() == 11 && ["L1", "L2", "L3", "L4"].contains(&toks[9]) => {
             let bd: u8 = toks[5].parse().ok()?; let idx: usize = toks[10].parse().ok()?; if idx > 1 << 20 { return None; }
             let cfg = cfg_of(bd, 0, 0, toks[4] == "1", mc_of(toks[2])?, TransferCharacteristic::BT1886, cp_of(toks[3])?);
-            let mid = 1u32 << (bd - 1); let mut codes = vec![[mid, mid, mid]; idx + crate::oracle::LAYW + 1];
+            let mode: u8 = toks[9][1..].parse().ok()?; let mid = 1u32 << (bd - 1); let mut codes = vec![[mid, mid, mid]; idx + crate::oracle::lay_width(mode) + 1];
             codes[idx] = [toks[6].parse().ok()?, toks[7].parse().ok()?, toks[8].parse().ok()?];
-            let yuv: Yuv<T> = crate::oracle::yuv444_rows(&codes, cfg, toks[9] == "L2");
+            let yuv: Yuv<T> = crate::oracle::yuv444_mode(&codes, cfg, mode);
             match Rgb::try_from(&yuv) {
                 Ok(r) if toks[0] == "dec" => format!("ok {}", v3s(r.data()[idx])),
                 Ok(r) => match Yuv::<T>::try_from((&r, cfg)) { Ok(y) => { let c = crate::oracle::codes_of_rows(&y, idx + 1)[idx]; format!("ok {} {} {}", c[0], c[1], c[2]) } Err(e) => err_c(e) },
